@@ -22,6 +22,8 @@ ASSUMPTIONS = [
 
 
 def _split_batch(args):
+    import os
+    os.environ["PYVC_SERIAL"] = "1"
     tier, lo, hi, full = args
     ds = list(enumerate(R.all_dicts(full)))[lo:hi]
     ck = Check("C01", tier, 0, "proof")
